@@ -5,6 +5,7 @@ CONSTANTS
   PreVote = FALSE
   CheckQuorum = TRUE
   Mut = ""
+  LazyApply = FALSE
   Collapsed = TRUE
   MaxAppEnts = 8
   MaxTerm = 3
@@ -14,6 +15,7 @@ CONSTANTS
   MaxDup = 1
   MaxCrash = 0
   MaxProp = 1
+  MaxReads = 0
   MaxConf = 0
   ConfOps <- OpsNone
   FCrash = FALSE
@@ -24,5 +26,5 @@ CONSTANTS
   FPartial = FALSE
 CONSTRAINT Bound
 VIEW view
-INVARIANTS ElectionSafety LearnerNeverCampaignsOrVotes VoteOncePerTerm LogMatching CommittedNeverTruncated StateMachineSafety LeaderCompleteness DurableCommit RestartSound
+INVARIANTS ElectionSafety LearnerNeverCampaignsOrVotes VoteOncePerTerm LogMatching CommittedNeverTruncated StateMachineSafety LeaderCompleteness DurableCommit RestartSound ReadStateSafety
 CHECK_DEADLOCK FALSE
